@@ -701,6 +701,16 @@ func (q *TransferQueue) enqueueAndCollectRetriesFor(batch batch) (batch, error) 
 		}
 		handled[o.Oid] = struct{}{}
 
+		if _, asked := requested[o.Oid]; !asked {
+			// Nothing in this batch is waiting for this OID, whether
+			// the entry carries actions or an error, so there is
+			// nothing to mark as done.
+			verifhook.Yield("batch.errc.unasked", q)
+			q.errorc <- errors.New(tr.Tr.Get("[%v] The server returned an unknown OID.", o.Oid))
+			q.Skip(o.Size)
+			continue
+		}
+
 		if o.Error != nil {
 			verifhook.Yield("batch.errc.objerr", q)
 			q.errorc <- errors.Wrapf(o.Error, "[%v] %v", o.Oid, o.Error.Message)
@@ -717,7 +727,7 @@ func (q *TransferQueue) enqueueAndCollectRetriesFor(batch batch) (batch, error) 
 		objects, ok := q.transfers[o.Oid]
 		q.trMutex.Unlock()
 		verifhook.Unlock("batch.lookup", q)
-		if _, asked := requested[o.Oid]; !ok || !asked {
+		if !ok {
 			// If we couldn't find any associated
 			// Transfer object, then we give up on the
 			// transfer by telling the progress meter to
